@@ -67,7 +67,8 @@ class OrderedSet:
         return self.union(o)
 
     def __iter__(self):
-        return iter(list(self._d))
+        # like a real set: changing the size while an iterator is live raises RuntimeError on its next step
+        return iter(self._d)
 
     def __len__(self):
         return len(self._d)
